@@ -45,20 +45,23 @@ def w_rules(P, E):
     r = RuleResult("W", "to_vec: poll holds the waker write guard across the done test and the waker store; "
                         "terminals store err, then done, then read the waker (W1-W5)")
     poll = P.body(POLL)
-    start = P.body(TOVEC + "::start")
+    start = None
+    for b in P.bodies.values():     # the public entry point; private helpers (ToVec::start) are inlined into it
+        if b.kind == "assoc" and b.name == "to_vec" and b.id not in P.absorbed and b.nid.startswith("operators::to_vec::"):
+            start = b
     if poll is None:
         r.error("anchor missing: <ToVec as Future>::poll")
     if start is None:
-        r.error("anchor missing: ToVec::start")
+        r.error("anchor missing: Observable::to_vec")
     if r.errors:
         return r
     subs = [c for c in start.calls if atom(c) == "subscribe"]
     if len(subs) != 1:
-        r.error("ToVec::start: expected one subscribe, found %d" % len(subs))
+        r.error("to_vec: expected one subscribe, found %d" % len(subs))
         return r
     hN, hE, hC = (P.bodies.get(subs[0].arg_closure(i)) for i in (1, 2, 3))
     if not (hN and hE and hC):
-        r.error("ToVec::start: subscribe callbacks are not closures")
+        r.error("to_vec: subscribe callbacks are not closures")
         return r
 
     # ---- W1
